@@ -46,21 +46,21 @@ Definition calls_eqb := list_eqb call_eqb.
 
 (** C03-F5 (pinned tree, before commit 16cf34b): the request is served differently by the
     tree with and without the repair of [findNode]'s dead-end returns *)
-Definition guard_F5 (fx1 fx2 fx6 fx7 : bool) (eng : engine) (es : list centry) (t : tree) (q : request) : bool :=
+Definition guard_F5 (fx1 fx2 fx6 : bool) (fx7 : dec) (eng : engine) (es : list centry) (t : tree) (q : request) : bool :=
   let a := serve fx1 fx2 false fx6 fx7 eng es t q in
   let b := serve fx1 fx2 true fx6 fx7 eng es t q in
   negb (outcome_eqb (fst a) (fst b) && calls_eqb (snd a) (snd b)).
 
 (* ------------------------------------------------------------------ findings: witnesses on loaded rule sets *)
 
-Definition served (fx2 fx3 fx5 fx6 fx7 : bool) (ds : list ruledef) (q : request) : option (outcome * list call) :=
+Definition served (fx2 fx3 fx5 fx6 : bool) (fx7 : dec) (ds : list ruledef) (q : request) : option (outcome * list call) :=
   match load fx3 false ds with Loaded es t => Some (serve false fx2 fx5 fx6 fx7 eng_none es t q) | _ => None end.
 
 (** C03-F2: /f/*rest with path_params rest = "x/y"; GET /f/x/y: the matcher is asked
     with no keys and no values, answers no, the request finds no rule *)
 Lemma F2_pinned_refuted :
   exists ds q k s segs,
-    served false true true true true ds q = Some (ONone, [k]) /\
+    served false true true true D7 ds q = Some (ONone, [k]) /\
     nth_error (flat_routes 0 ds) (k_vid k) = Some s /\ guard_F2_params s = true /\
     sr_segs s q = Some segs /\
     ~ call_sees_route (flat_routes 0 ds) q k /\
@@ -78,7 +78,7 @@ Qed.
     with the captures {b: 1, c: 2/3} *)
 Lemma F3_pinned_refuted :
   exists ds q k s segs caps sc,
-    served true false true true true ds q = Some (ORule 0 caps false, [k]) /\
+    served true false true true D7 ds q = Some (ORule 0 caps false, [k]) /\
     nth_error (flat_routes 0 ds) (k_vid k) = Some s /\ sr_rule s = 0 /\
     guard_F3 (flat_routes 0 ds) s = true /\
     sr_segs s q = Some segs /\
@@ -96,8 +96,8 @@ Qed.
     captures {a: b}; with a path_params condition on x the lookup panics *)
 Lemma F5_pinned_refuted :
   exists ds q k s segs caps sc es t,
-    load true false ds = Loaded es t /\ guard_F5 false true true true eng_none es t q = true /\
-    served true true false true true ds q = Some (ORule 1 caps false, [k]) /\
+    load true false ds = Loaded es t /\ guard_F5 false true true D7 eng_none es t q = true /\
+    served true true false true D7 ds q = Some (ORule 1 caps false, [k]) /\
     nth_error (flat_routes 0 ds) (k_vid k) = Some s /\
     sr_segs s q = Some segs /\
     ~ call_sees_route (flat_routes 0 ds) q k /\
@@ -115,8 +115,8 @@ Qed.
 
 Lemma F5_pinned_panic_refuted :
   exists ds q k es t,
-    load true false ds = Loaded es t /\ guard_F5 false true true true eng_none es t q = true /\
-    served true true false true true ds q = Some (OPanic, [k]) /\ k_res k = MPanic.
+    load true false ds = Loaded es t /\ guard_F5 false true true D7 eng_none es t q = true /\
+    served true true false true D7 ds q = Some (OPanic, [k]) /\ k_res k = MPanic.
 Proof.
   exists [w_rule [] [] [w_route "/:a/b/c" []] SOff;
           w_rule [] [] [w_route "/:a/:x" [{| pp_name := "x"; pp_tm := w_exact "b" |}]] SOff].
